@@ -3,6 +3,7 @@ pub mod api;
 pub mod c01;
 pub mod c03;
 pub mod c04;
+pub mod c06;
 
 use crate::ast::Node;
 use crate::core::*;
@@ -21,6 +22,7 @@ pub fn run(ctx: &RunCtx) -> Outcome {
         "C03" => c03::run(ctx),
         "C04" => c04::run(ctx),
         "C05" => api::run_c05(ctx),
+        "C06" => c06::run(ctx),
         "C08" => api::run_c08(ctx),
         "C09" => api::run_c09(ctx),
         "C10" => api::run_c10(ctx),
@@ -44,6 +46,7 @@ pub fn replay(ctx: &RunCtx, case: &Value) -> Result<Option<Fail>, String> {
             replay_pat(ctx, &c04::VsRegex { named }, case)
         }
         "C05" => replay_pat(ctx, &api::Safety, case),
+        "C06" => c06::replay(ctx, case),
         "C08" => replay_pat(ctx, &api::IterModel, case),
         "C09" => replay_pat(ctx, &api::Coherence, case),
         "C10" => replay_pat(ctx, &api::SplitModel, case),
@@ -53,6 +56,13 @@ pub fn replay(ctx: &RunCtx, case: &Value) -> Result<Option<Fail>, String> {
             replay_pat(ctx, &api::Meta { force_vm }, case)
         }
         _ => Err(format!("no replay for {}", ctx.prop)),
+    }
+}
+
+pub fn worker(ctx: &RunCtx, args: &[String]) {
+    match ctx.prop {
+        "C06" => c06::worker(ctx, args),
+        _ => panic!("no worker for {}", ctx.prop),
     }
 }
 
